@@ -923,6 +923,38 @@ func runKeySplit(c *Ctx, r *RuleRun) {
 	okT := len(st) == 1 && st[0] == "LastIndex(@)"
 	r.Check(okK, p.FnName(fk), "splits at the last @", p.Pos(fk.Pos()), "strings.LastIndex(key, \"@\")", fmt.Sprintf("ParseKey splits with %v: user keys containing '@' are cut at the wrong place", sk))
 	r.Check(okT, p.FnName(ft), "splits at the last @", p.Pos(ft.Pos()), "strings.LastIndex(key, \"@\")", fmt.Sprintf("ParseTs splits with %v while ParseKey uses %v: for user keys containing '@' every version parses to the same timestamp and versions are no longer ordered", st, sk))
+	// CompareKeys takes user key and timestamp from ParseKey/ParseTs only (no slicing of its own): comparator and
+	// projections cannot disagree on where a stored key is split
+	if fc := p.Fn("types", "", "CompareKeys"); fc != nil {
+		own := ""
+		parsed := map[string]int{}
+		eachInstr(fc, func(ins ssa.Instruction) {
+			switch x := ins.(type) {
+			case *ssa.Slice:
+				if bt, ok := x.X.Type().Underlying().(*types.Basic); ok && bt.Info()&types.IsString != 0 {
+					own = "slices a key itself"
+				}
+			case *ssa.Call:
+				if obj := p.ExtCallee(x); obj != nil && obj.Pkg() != nil && obj.Pkg().Path() == "strings" && obj.Name() != "Compare" {
+					own = "calls strings." + obj.Name()
+				}
+				for _, g := range p.Callees(x) {
+					if g == fk || g == ft {
+						if _, isParam := x.Call.Args[0].(*ssa.Parameter); isParam {
+							parsed[g.Name()]++
+						}
+					}
+				}
+			}
+		})
+		ok := own == "" && parsed["ParseKey"] == 2 && parsed["ParseTs"] == 2
+		detail := own
+		if detail == "" {
+			detail = fmt.Sprintf("calls ParseKey %d times and ParseTs %d times on its parameters", parsed["ParseKey"], parsed["ParseTs"])
+		}
+		r.Check(ok, p.FnName(fc), "uses ParseKey/ParseTs", p.Pos(fc.Pos()), "user keys and timestamps come from ParseKey/ParseTs of both parameters",
+			"CompareKeys "+detail+": the comparator splits stored keys differently from ParseKey/ParseTs, so key order and same-key tests disagree (e.g. key10 sorts before key1)")
+	}
 	// KeyWithTs appends "@" + decimal
 	good := false
 	eachInstr(fw, func(ins ssa.Instruction) {
@@ -1054,5 +1086,135 @@ func runCmpRmOrder(c *Ctx, r *RuleRun) {
 	}
 	if n == 0 {
 		r.Undecided("-", "L0 selection", "", "no L0 compaction found")
+	}
+}
+
+func init() {
+	register(&Rule{ID: "TRACE.FRESHBUF", Engine: "E-DEP", Min: 2,
+		Desc: "the private buffers of a transaction (pendingWrites, writesFp) are created fresh for it (make), never taken from a pool or shared object: nothing an abandoned transaction wrote can reappear in another one",
+		Run:  runTraceFreshBuf})
+	register(&Rule{ID: "WM.COUNT", Engine: "E-PATH", Min: 1,
+		Desc: "every Begin/Done mark the consumer receives is counted: from the non-waiter branch no path leads back to the select without the update of the pending count",
+		Run:  runWmCount})
+	register(&Rule{ID: "WM.PUBLISH", Engine: "E-PATH", Min: 1,
+		Desc: "waiters released because the mark advanced are closed only after the new value of doneUntil was stored: WaitForMark never returns nil while DoneUntil() is still below its index",
+		Run:  runWmPublish})
+}
+
+func runTraceFreshBuf(c *Ctx, r *RuleRun) {
+	a := c.Txn()
+	if !a.ok(r) {
+		return
+	}
+	p := c.P
+	for _, fv := range []*types.Var{a.fPending, a.fWritesFp} {
+		n := 0
+		for _, f := range p.Funcs {
+			for _, st := range storesToField(f, fv) {
+				n++
+				v := st.Val
+				_, isMake := v.(*ssa.MakeMap)
+				ok := isMake || isNilConst(v)
+				r.Check(ok, p.FnName(f), "fresh "+fv.Name(), p.Pos(instrPos(st)), "make(map…) for this transaction",
+					"the transaction's "+fv.Name()+" is not a freshly made map (it comes from a pool or another object): entries an abandoned transaction left in it are seen, and committed, by the next transaction")
+			}
+		}
+		if n == 0 {
+			r.Undecided("Txn", "fresh "+fv.Name(), "", "no store to Txn."+fv.Name())
+		}
+	}
+}
+
+func runWmCount(c *Ctx, r *RuleRun) {
+	a := wmGet(c, r)
+	if a == nil {
+		return
+	}
+	p := c.P
+	f := a.process
+	fn := p.FnName(f)
+	var sel ssa.Instruction
+	eachInstr(f, func(ins ssa.Instruction) {
+		if s, ok := ins.(*ssa.Select); ok {
+			sel = s
+		}
+	})
+	isCount := func(i ssa.Instruction) bool {
+		mu, ok := i.(*ssa.MapUpdate)
+		if !ok {
+			return false
+		}
+		mt, ok := mu.Map.Type().Underlying().(*types.Map)
+		if !ok {
+			return false
+		}
+		bt, ok := mt.Elem().Underlying().(*types.Basic)
+		return ok && bt.Info()&types.IsInteger != 0
+	}
+	n := 0
+	for _, b := range f.Blocks {
+		if len(b.Instrs) == 0 {
+			continue
+		}
+		iff, ok := b.Instrs[len(b.Instrs)-1].(*ssa.If)
+		if !ok {
+			continue
+		}
+		v, nilSucc, isNil := nilTestCond(iff.Cond)
+		if !isNil || !isLoadOfField(v, a.fWaiter) {
+			continue
+		}
+		n++
+		q := PathQuery{P: p, Fn: f, Starts: []ssa.Instruction{iff}, EdgeOK: func(bb *ssa.BasicBlock, i int) bool { return bb != b || i == nilSucc },
+			Avoid: func(i ssa.Instruction) bool { return isCount(i) || i == ssa.Instruction(iff) }, Target: func(i ssa.Instruction) bool { return i == sel || isReturn(i) }}
+		w := q.FindPath()
+		if w != nil {
+			r.Viol(fn, "every mark is counted", p.Pos(instrPos(iff)), "a Begin/Done mark can be dropped without updating its pending count (e.g. marks at or below the current watermark): a second Begin of an index that is already passed is never tracked and the mark moves beyond unfinished work", p.describePath(w)...)
+		} else {
+			r.Hold(fn, "every mark is counted", p.Pos(instrPos(iff)), "pending[ts] is updated on every path of the begin/done branch")
+		}
+	}
+	if n == 0 {
+		r.Undecided(fn, "begin/done branch", p.Pos(f.Pos()), "the branch on mark.waiter was not found")
+	}
+}
+
+func runWmPublish(c *Ctx, r *RuleRun) {
+	a := wmGet(c, r)
+	if a == nil {
+		return
+	}
+	p := c.P
+	f := a.process
+	fn := p.FnName(f)
+	stores := a.stores(p, f)
+	n := 0
+	eachInstr(f, func(ins ssa.Instruction) {
+		call, ok := ins.(*ssa.Call)
+		if !ok {
+			return
+		}
+		bi, ok := call.Call.Value.(*ssa.Builtin)
+		if !ok || bi.Name() != "close" {
+			return
+		}
+		if fv, _ := loadedField(call.Call.Args[0]); fv == a.fMarkC {
+			return
+		}
+		// guarded by the freshly computed value (not by a read of doneUntil)?
+		byNew := false
+		for _, st := range stores {
+			x := st.Call.Args[1]
+			if hasFact(call, func(cm Cmp) bool { return cm.Op == "<=" && cm.Y == x }) {
+				byNew = true
+				n++
+				r.Check(dominatesInstr(st, call), fn, "store before releasing waiters", p.Pos(instrPos(call)), "doneUntil.Store precedes the close of the waiter",
+					"a waiter is released before the new value of doneUntil is stored: WaitForMark returns nil although DoneUntil() still reads below its index")
+			}
+		}
+		_ = byNew
+	})
+	if n == 0 {
+		r.Undecided(fn, "waiters released on advance", p.Pos(f.Pos()), "no waiter close guarded by the newly computed mark")
 	}
 }
